@@ -4,6 +4,7 @@ from cfg import cfg_of
 from flow import Taint, Tracker, backward, callee_matches, field_reads, op_local, prep
 from rules import CallGuard, CallSink, CmpGuard, RetSink, AggSink, compare_sites
 from rules import PL
+from rules import P as PL_fn
 from props.C03 import PV, PUT, param_seeds
 from props.C04 import call_results, agg_field_operands, TRK, per_element_key_check
 
@@ -64,6 +65,8 @@ def merge_rules(R, pfx="C07"):
         counter = CmpGuard(local_counts, new_counts, "Lt", "local.count() < new.count() (strictly higher)", close=False)
         no_local = CallGuard([NET + "get_local_record"], ("Ok", "None"), "no local copy")
         R.gate(pfx + ".pad.counter", pad, CallSink(PUT), [[counter, no_local]], descr="scratchpad stored only if no local copy or strictly higher counter")
+        R.gate(pfx + ".pad.key", pad, CallSink(PUT), [[CmpGuard(call_results([TRK]), PL_fn(2), "Eq", "owner-derived key == presented key")]],
+               descr="scratchpad stored only under the key derived from its owner (a pad for another address is refused)")
         R.gate_here_or_in_callers(pfx + ".pad.sig", PV + "validate_and_store_scratchpad_record::{closure#0}", PV + "validate_and_store_scratchpad_record",
                                   CallSink(PUT), CallGuard([PAD + "::is_valid"], ("true",), "scratchpad.is_valid()"),
                                   "scratchpad stored only with a valid owner signature")
@@ -148,6 +151,20 @@ def merge_rules(R, pfx="C07"):
                 R.viol(pfx + ".reg.merge", "merge-missing", "no merged register is produced when a local copy exists", rv, rv.lines[0])
         else:
             R.viol(pfx + ".reg.merge", "present-branch", "register_validation does not branch on present_locally", rv, rv.lines[0])
+    # "nothing to update" (Ok(None)) is answered only when the merge left the local register unchanged; a merge that brought new
+    # operations yields the merged register
+    if rv is not None:
+        loc = lambda b: Taint(b, through="all").closure(call_results(["ant_protocol::storage::header::try_deserialize_record"])(b))
+        same = CmpGuard(loc, loc, "Eq", "merged register == local register", close=False)
+        n_, acc_, rej_ = same.edges(rv)
+        g_ = cfg_of(rv)
+        nones = set(AggSink("core::option::Option", "None", dest_ty="SignedRegister").blocks(rv))
+        somes_ = set(AggSink("core::option::Option", "Some", dest_ty="SignedRegister").blocks(rv))
+        okn = bool(acc_) and bool(rej_) and bool(nones) and all(not (g_.reach((d,)) & nones) for _, d in rej_) and all(not (g_.reach((d,)) & somes_) for _, d in acc_)
+        if not okn:
+            R.viol(pfx + ".reg.noop", "noop-polarity", "register_validation does not answer None exactly when the merged register equals the local one "
+                   "(an update that adds operations must be stored; an unchanged register need not be)", rv, rv.lines[0])
+        R.inst(pfx + ".reg.noop", "K10 polarity", "Ok(None) ⇔ merged == local; otherwise Ok(Some(merged))", n_, okn)
     vsr = R.body(pfx + ".reg.store", PV + "validate_and_store_register::{closure#0}")
     if vsr is not None:
         prep(vsr)
